@@ -94,7 +94,7 @@ class Exec:
         st.next_obj[0] += 1
         oid = ctx.fresh("new", Int, tuple(st.idx))
         # fresh allocation: distinct from all previously allocated and all initial objects
-        ctx.assume(oid < 0)
+        ctx.assume(oid < -1)  # -1 is reserved for the ghost file-system trace (pyvc/effects.py)
         for other in st.ghost.get("$alloc", []):
             ctx.assume(oid != other)
         st.ghost["$alloc"] = st.ghost.get("$alloc", []) + [oid]
@@ -403,9 +403,17 @@ class Exec:
 
     def s_ImportFrom(self, ctx, st, s):
         import importlib
-        mod = importlib.import_module(s.module)
+        name = s.module or ""
+        if s.level:
+            # relative import: resolve against the package of the module the executing function lives in
+            gmod = st.frames[-1].globals_mod
+            pkg = getattr(gmod, "name", None) or ""
+            parts = pkg.split(".")
+            base = ".".join(parts[:len(parts) - s.level])
+            name = (base + "." + name) if name else base
+        mod = importlib.import_module(name)
         for a in s.names:
-            gm = ModuleScope(s.module, mod, None)
+            gm = ModuleScope(name, mod, self.sources.get(name) if self.sources else None)
             self.assign_name(st, a.asname or a.name, self.wrap_global(gm, a.name, getattr(mod, a.name)))
 
     def s_Assert(self, ctx, st, s):
